@@ -154,6 +154,19 @@ def unbound_locals(run, project, rule, modules, what="internal error"):
                 stack.extend(s_ for _, s_ in c.succ)
                 if c.kind in ("stmt", "test", "for", "handler"):
                     stack.extend(V.cfg.handlers_of(c))
+            # an augmented assignment (`x += ...`) binds x only if x was bound before: such definitions are grounded when a
+            # plain definition (or a grounded augmented one) reaches them
+            aug = {(d, v) for d, ds in V.rd.defs.items() for v, rec in ds.items() if rec[0] == "aug"}
+            grounded, changed = set(), True
+            while changed:
+                changed = False
+                for d, v in aug - grounded:
+                    if any((r, v) not in aug or (r, v) in grounded for r in V.rd.IN[d].get(v, ())):
+                        grounded.add((d, v))
+                        changed = True
+
+            def reaches(node_id, var):
+                return any((r, var) not in aug or (r, var) in grounded for r in V.rd.IN[node_id].get(var, ()))
             for node in V.cfg.nodes:
                 if node.kind not in ("stmt", "test", "for") or node.ast is None or node.id not in live:
                     continue
@@ -168,14 +181,74 @@ def unbound_locals(run, project, rule, modules, what="internal error"):
                             comp_targets.update(t.id for t in ast.walk(x.target) if isinstance(t, ast.Name))
                         if isinstance(x, ast.Lambda):
                             comp_targets.update(a.arg for a in x.args.args)
-                for r in roots:
-                    for x in ast.walk(r):
-                        if isinstance(x, ast.Name) and isinstance(x.ctx, ast.Load) and x.id in local and x.id not in comp_targets:
+                reads = [x for r in roots for x in ast.walk(r) if isinstance(x, ast.Name) and isinstance(x.ctx, ast.Load)]
+                if node.kind == "stmt" and isinstance(node.ast, ast.AugAssign) and isinstance(node.ast.target, ast.Name):
+                    reads.append(node.ast.target)   # `x += e` reads x first
+                for r in [None]:
+                    for x in reads:
+                        if x.id in local and x.id not in comp_targets:
                             n_use += 1
-                            if not V.rd.IN[node.id].get(x.id):
+                            if not reaches(node.id, x.id):
                                 run.ob(rule, False, f"{q}: `{x.id}` is bound where it is read",
                                        f"`{x.id}` is read in `{norm(node.ast).splitlines()[0][:70]}` but no assignment of it reaches that "
                                        f"place on any path: executing it raises UnboundLocalError ({what})", module=m, node=x, func=q,
                                        construct=f"unbound local {x.id}")
     run.ob(rule, True, f"no read of a local that no assignment reaches ({n_fn} functions, {n_use} reads of locals)")
     return n_fn, n_use
+
+
+def undefined_names(run, project, rule, modules, what="internal error", dead_in=None):
+    """A name a function reads that is bound nowhere - not in the function, not in an enclosing function, not at module level,
+    not a builtin - raises NameError whenever the read is executed (typically: the only assignment was removed, or a block was
+    copied from a function that had the name).  Scopes are resolved with the standard library's symtable (the compiler's own
+    scoping rules); `dead_in(qualname, function node of the unmodified source)` may name handler nodes proven unreachable for the
+    property's inputs: reads inside them are not judged."""
+    import builtins
+    import symtable
+    n_fn = n_names = 0
+    for mname in modules:
+        m = project.modules.get(mname)
+        if m is None:
+            continue
+        try:
+            top = symtable.symtable(m.source, m.relpath, "exec")
+        except SyntaxError:
+            continue
+        modnames = {s_.get_name() for s_ in top.get_symbols() if s_.is_assigned() or s_.is_imported() or s_.is_namespace()}
+        raw = ast.parse(m.source)
+        if any(isinstance(s_, ast.ImportFrom) and any(a.name == "*" for a in s_.names) for s_ in ast.walk(raw)):
+            continue   # a star import binds names this analysis cannot see
+        fnodes = {}
+        for x in ast.walk(raw):
+            if isinstance(x, (ast.FunctionDef, ast.AsyncFunctionDef, ast.Lambda)):
+                fnodes.setdefault((getattr(x, "name", "lambda"), x.lineno), x)
+
+        def visit(tab, qual):
+            nonlocal n_fn, n_names
+            for ch in tab.get_children():
+                q = f"{qual}.{ch.get_name()}" if qual else ch.get_name()
+                if ch.get_type() == "function":
+                    n_fn += 1
+                    for s_ in ch.get_symbols():
+                        if not (s_.is_referenced() and s_.is_global() and not s_.is_declared_global()):
+                            continue
+                        nm = s_.get_name()
+                        n_names += 1
+                        if nm in modnames or hasattr(builtins, nm) or nm in ("__class__", "__file__", "__name__", "__doc__"):
+                            continue
+                        fn = fnodes.get((ch.get_name(), ch.get_lineno()))
+                        uses = [u for u in ast.walk(fn) if isinstance(u, ast.Name) and u.id == nm and isinstance(u.ctx, ast.Load)] if fn is not None else []
+                        # the same statement in the analysed (normalised) tree, to know whether it sits in a dead handler
+                        dead_ids = {id(x) for h in (dead_in(q, fn) if dead_in and fn is not None else ()) for x in ast.walk(h)}
+                        live_uses = [u for u in uses if id(u) not in dead_ids]
+                        if uses and not live_uses:
+                            continue
+                        u0 = (live_uses or uses or [None])[0]
+                        run.ob(rule, False, f"{q}: `{nm}` is a known name",
+                               f"`{nm}` is read in {q} but bound nowhere (not in the function, not in an enclosing function, not at module "
+                               f"level, not a builtin): executing the read raises NameError ({what})", module=m,
+                               node=u0 if u0 is not None else None, func=q, construct=f"undefined name {nm}")
+                visit(ch, q)
+        visit(top, "")
+    run.ob(rule, True, f"every name read in a function resolves to a binding ({n_fn} functions, {n_names} module-level / builtin names)")
+    return n_fn, n_names
